@@ -4,7 +4,10 @@ entry of ``_CLEANUP_FUNCS`` is wrapped from the outside: the wrapper appends a r
 calls the ORIGINAL clean-up function (real deletion, relative to the current directory) and records
 how it ended.  Nothing in /repo is edited.
 
-argv: <read fd> <log path>
+argv: <read fd> <log path> [pending=INT,TERM]
+   pending=...: the driver started this process with SIGINT/SIGTERM blocked (as ensure_running does) and
+   sent the named signals right after the spawn; main() is entered only once they are pending, so
+   "a signal arrived while the tracker was starting" is a fact, not a matter of timing.
 log records (one os.write each, O_APPEND):
     C \t rtype \t hex(name)            before the call
     R \t rtype \t hex(name) \t ok|<ExceptionClass>   after it
@@ -38,5 +41,13 @@ def _wrap(rtype, func):
 
 # same keys, same order, same functions -- only observed
 rt._CLEANUP_FUNCS = {k: _wrap(k, v) for k, v in rt._CLEANUP_FUNCS.items()}
+if len(sys.argv) > 3 and sys.argv[3].startswith("pending="):
+    import signal
+    import time
+    want = {getattr(signal, "SIG" + n) for n in sys.argv[3][8:].split(",") if n}
+    t0 = time.time()
+    while not want <= signal.sigpending() and time.time() - t0 < 20:
+        time.sleep(0.001)
+    os.write(log_fd, ("P\t%s\n" % ",".join(sorted(s.name for s in signal.sigpending()))).encode())
 os.write(log_fd, ("T\t%s\n" % ",".join(rt._CLEANUP_FUNCS.keys())).encode())
 rt.main(fd)
